@@ -157,7 +157,11 @@ def check(s):
                 mi = None
                 if isinstance(init, tuple) and init[0] == "call":
                     mi = bind_args(finit, init[2], init[3])
-                s.ob("C05.5", conr + tag, mi is not None and mi.get("size") == ("attr", ("param", "self"), "buffer_size"),
+                # on this path num_envs == 1: a per-environment capacity written buffer_size // num_envs IS buffer_size here
+                size1 = mi.get("size") if mi is not None else None
+                self_b = ("attr", ("param", "self"), "buffer_size")
+                per_env = [("bin", "FloorDiv", self_b, ("attr", ("param", "self"), "num_envs")), ("bin", "FloorDiv", self_b, ("const", 1))]
+                s.ob("C05.5", conr + tag, size1 is not None and (size1 == self_b or size1 in per_env),
                      "single environment: the buffer is built with size self.buffer_size", locr, key="buffer-size-single",
                      detail=show(init or NONE, maxlen=200))
         else:
